@@ -106,7 +106,7 @@ def rule_rm(ctx):
                     kw[k] = tgt.attrs[k]
             return it.run_function(Fn(f, c), [], kw)
 
-        paths = explore(p, run, {"inline": lambda fi, node: fi.parent is not None and fi.parent is f})
+        paths = explore(p, run, client_opts(p))
         ctx.paths_enumerated += len(paths)
         for pa in paths:
             if pa.outcome != "return" or len(paths) != 1:
